@@ -35,7 +35,7 @@ pub fn run(ctx: &mut Ctx) {
     // after the generated sessions: scripted ones (`script`), one round each — near-miss names (docType, namespace and
     // identifier spellings that differ from a held one in case or padding only) and age attestations that are not held
     // while a neighbouring one is
-    const SCRIPTS: u64 = 6;
+    const SCRIPTS: u64 = 9;
     for si in 0..sessions + SCRIPTS {
         let script: Option<u64> = if si >= sessions { Some(si - sessions) } else { None };
         let mut rng = ctx.rng.clone();
@@ -55,7 +55,15 @@ pub fn run(ctx: &mut Ctx) {
                 if els.is_empty() { els.insert("x".into(), Value::Bool(true)); }
                 namespaces.insert(ns.to_string(), els);
             }
-            if script.is_some() {
+            if script == Some(6) || script == Some(8) {
+                // a namespace name that is another one plus a dotted tail, and identifiers that contain that tail
+                namespaces = [(NS.to_string(), [("aamva".to_string(), Value::Text("a".into())), ("aamva.sex".to_string(), Value::Text("b".into())), ("family_name".to_string(), Value::Text("Doe".into()))].into_iter().collect()),
+                              (NS_AAMVA.to_string(), [("sex".to_string(), Value::Integer(1.into())), ("organ_donor".to_string(), Value::Integer(1.into()))].into_iter().collect())].into_iter().collect();
+            } else if script == Some(7) {
+                // the renamed AAMVA elements: only the `.v2` names are held
+                namespaces = [(NS.to_string(), [("family_name".to_string(), Value::Text("Doe".into()))].into_iter().collect()),
+                              (NS_AAMVA.to_string(), [("aka_family_name.v2".to_string(), Value::Text("X".into())), ("aka_given_name.v2".to_string(), Value::Text("Y".into())), ("sex".to_string(), Value::Integer(1.into()))].into_iter().collect())].into_iter().collect();
+            } else if script.is_some() {
                 namespaces = [(NS.to_string(), [("family_name".to_string(), Value::Text("Doe".into())), ("age_over_21".to_string(), Value::Bool(true)),
                                                 ("age_over_65".to_string(), Value::Bool(false))].into_iter().collect())].into_iter().collect();
             }
@@ -119,10 +127,13 @@ pub fn run(ctx: &mut Ctx) {
                     2 => ("ORG.ISO.18013.5.1.MDL", NS, sv(&["family_name", "age_over_21"]), vec![MDL, "ORG.ISO.18013.5.1.MDL"], vec![NS]),
                     3 => (MDL, "ORG.ISO.18013.5.1", sv(&["family_name"]), vec![MDL], vec![NS, "ORG.ISO.18013.5.1"]),
                     4 => (MDL, NS, sv(&["Family_Name", "family_name ", "age_over_021", "age_over_2", "AGE_OVER_21"]), vec![MDL], vec![NS]),
-                    _ => (MDL, NS, sv(&["age_over_99", "age_over_00"]), vec![MDL], vec![NS]),
+                    5 => (MDL, NS, sv(&["age_over_99", "age_over_00"]), vec![MDL], vec![NS]),
+                    6 => (MDL, NS, sv(&["aamva", "aamva.sex"]), vec![MDL], vec![NS, NS_AAMVA]),
+                    7 => (MDL, NS_AAMVA, sv(&["aka_family_name", "aka_given_name", "sex"]), vec![MDL], vec![NS_AAMVA]),
+                    _ => (MDL, NS_AAMVA, sv(&["org.iso.18013.5.1.aamva.sex", "aamva.sex", ".sex"]), vec![MDL], vec![NS, NS_AAMVA]),
                 };
                 req = vec![(dt.to_string(), vec![(ns.to_string(), ids.clone())])];
-                perm = pdts.iter().map(|d| (d.to_string(), pnss.iter().map(|n| (n.to_string(), [ids.clone(), sv(&["family_name", "age_over_21", "age_over_65"])].concat())).collect())).collect();
+                perm = pdts.iter().map(|d| (d.to_string(), pnss.iter().map(|n| (n.to_string(), [ids.clone(), sv(&["family_name", "age_over_21", "age_over_65", "sex", "aamva.sex", "aka_family_name.v2"])].concat())).collect())).collect();
                 ctx.count(&format!("script:{k}"));
             }
             let items: RequestedItems = req.iter().map(|(dt, nss)| ItemsRequest {
